@@ -411,8 +411,16 @@ pub fn check(scn: &Scenario, stats: &mut Stats) -> Vec<Violation> {
     let mut got: Vec<Key> = split.diags.iter().map(key).collect();
     let mut titles_at: Vec<(String, usize, &str)> = Vec::new();
     let mut sites_with_error: Vec<(String, usize)> = Vec::new();
-    for d in &failed {
-        let rec = split.import_log.iter().skip(1).zip(&dirs).find(|(_, x)| x.file == d.file && x.line == d.line && !x.ok).map(|(r, _)| r.error.clone()).unwrap_or_default();
+    // every failed directive occurrence with the outcome of *its own* import (the k-th directive met
+    // is the k-th include import; a directive met twice can fail differently each time)
+    let failed_with_rec: Vec<(&Directive, String)> = dirs
+        .iter()
+        .enumerate()
+        .filter(|(_, d)| !d.ok)
+        .map(|(k, d)| (d, split.import_log.get(k + 1).map(|r| r.error.clone()).unwrap_or_default()))
+        .collect();
+    for (d, rec) in &failed_with_rec {
+        let rec = rec.clone();
         let missing = resolve(dir_of(&d.file), &d.requested).is_none_or(|t| !scn.world.files.contains_key(&t));
         let title = if is_lsp && missing {
             "Unexpected error" // InternalFileNotFound
